@@ -43,7 +43,7 @@ func (m *omap) find(k value) *oentry {
 
 func (m *omap) lookup(k value) (value, bool) {
 	if e := m.find(k); e != nil {
-		return e.val, true
+		return copyValue(e.val), true
 	}
 	return nil, false
 }
@@ -53,11 +53,11 @@ func (m *omap) insert(k, v value) {
 		panic(targetPanicString("assignment to entry in nil map"))
 	}
 	if e := m.find(k); e != nil {
-		e.val = v
+		e.val = copyValue(v)
 		return
 	}
 	h := hash(m.keyType, m.keyType, k)
-	e := &oentry{key: k, val: v}
+	e := &oentry{key: copyValue(k), val: copyValue(v)}
 	m.entries = append(m.entries, e)
 	m.index[h] = append(m.index[h], e)
 	m.length++
@@ -98,7 +98,7 @@ func (it *omapIter) next() tuple {
 			e := it.m.entries[it.i]
 			it.i++
 			if !e.deleted {
-				return tuple{true, e.key, e.val}
+				return tuple{true, copyValue(e.key), copyValue(e.val)}
 			}
 		}
 	}
